@@ -12,6 +12,7 @@ CONSTANTS
   FixKeep = TRUE
   FixDangling = TRUE
   FixABA = FALSE
+  Healthy = FALSE
   DriftOn = TRUE
 INVARIANTS Exclusive NeverUnassignHeld NeverDeleteInUse HeldBacked QuotaAddr NoGhostOwner TrackedEqualsCloud
 CHECK_DEADLOCK FALSE
